@@ -102,7 +102,7 @@ type File struct {
 }
 
 func (f *File) Name() string { return f.f.Name() }
-func (f *File) Fd() uintptr   { return f.f.Fd() }
+func (f *File) Fd() uintptr  { return f.f.Fd() }
 
 func (f *File) Write(p []byte) (int, error) {
 	if err := fsPoint("write", f.path, true); err != nil {
@@ -137,8 +137,8 @@ func (f *File) ReadAt(p []byte, off int64) (int, error) {
 }
 
 func (f *File) Seek(off int64, whence int) (int64, error) { return f.f.Seek(off, whence) }
-func (f *File) Stat() (os.FileInfo, error)                 { return f.f.Stat() }
-func (f *File) Truncate(n int64) error                     { return f.f.Truncate(n) }
+func (f *File) Stat() (os.FileInfo, error)                { return f.f.Stat() }
+func (f *File) Truncate(n int64) error                    { return f.f.Truncate(n) }
 
 func (f *File) Sync() error {
 	if err := fsPoint("sync", f.path, true); err != nil {
@@ -258,7 +258,7 @@ func FSWriteFile(path string, data []byte, perm os.FileMode) error {
 }
 
 func FSReadDir(path string) ([]os.DirEntry, error) { return os.ReadDir(path) }
-func FSReadlink(path string) (string, error)        { return os.Readlink(path) }
+func FSReadlink(path string) (string, error)       { return os.Readlink(path) }
 
 // CopyTree copies a directory tree as a crash image: regular files by content
 // (what the OS has, i.e. without user-space buffers), hard links between files
